@@ -508,6 +508,10 @@ Proof.
   - rewrite E, Ln. now apply IH.
 Qed.
 
+Lemma project_vis0 (ts : list target) (xs : list value) :
+  length xs = length ts -> project (vis_from 0 ts) xs = visible ts xs.
+Proof. intros L. exact (project_vis_from ts xs [] L). Qed.
+
 Theorem exec_nonagg_sound cols (q : query) (names : list (option (list Z))) d table :
   q_group q = None ->
   length names = length (q_targets q) ->
@@ -525,3 +529,297 @@ Proof.
   rewrite scan_nonagg_spec in Hr. apply in_map_iff in Hr. destruct Hr as [r0 [<- _]].
   rewrite map_length. unfold target. rewrite combine_length, L. lia.
 Qed.
+
+(* ================= the aggregate path ================= *)
+
+(* an expression typed without aggregate dtypes contains no aggregate node and keeps its dtype when they are supplied *)
+Lemma all_some_weaken cols aggs args ts :
+  Forall (fun e => forall t, type_of cols [] e = Some t -> type_of cols aggs e = Some t) args ->
+  all_some (map (type_of cols []) args) = Some ts -> all_some (map (type_of cols aggs) args) = Some ts.
+Proof.
+  intros F. revert ts. induction F as [|a l Ha F IH]; intros ts H; simpl in *; [exact H|].
+  destruct (type_of cols [] a) as [t|] eqn:E; [|discriminate H]. rewrite (Ha t eq_refl).
+  destruct (all_some (map (type_of cols []) l)) as [r|]; [|discriminate H]. now rewrite (IH r eq_refl).
+Qed.
+
+Lemma type_of_weaken cols aggs : forall e t, type_of cols [] e = Some t -> type_of cols aggs e = Some t.
+Proof.
+  apply (enode_ind' (fun e => forall t, type_of cols [] e = Some t -> type_of cols aggs e = Some t)).
+  - intros v t H. exact H.
+  - intros i t H. exact H.
+  - intros h t H. simpl in H. destruct h; discriminate H.
+  - intros op e IH t H. simpl in *. destruct (type_of cols [] e) as [a|]; [|discriminate H]. now rewrite (IH a eq_refl).
+  - intros op e1 e2 IH1 IH2 t H. simpl in *.
+    destruct (type_of cols [] e1) as [a|]; [|discriminate H]. destruct (type_of cols [] e2) as [b|]; [|discriminate H].
+    now rewrite (IH1 a eq_refl), (IH2 b eq_refl).
+  - intros e1 e2 e3 IH1 IH2 IH3 t H. simpl in *.
+    destruct (type_of cols [] e1) as [a|]; [|discriminate H]. destruct (type_of cols [] e2) as [b|]; [|discriminate H].
+    destruct (type_of cols [] e3) as [c|]; [|discriminate H].
+    now rewrite (IH1 a eq_refl), (IH2 b eq_refl), (IH3 c eq_refl).
+  - intros args F t H. simpl in *. destruct (all_some (map (type_of cols []) args)) as [ts|] eqn:E; [|discriminate H].
+    now rewrite (all_some_weaken cols aggs args ts F E).
+  - intros args F t H. simpl in *. destruct (all_some (map (type_of cols []) args)) as [ts|] eqn:E; [|discriminate H].
+    now rewrite (all_some_weaken cols aggs args ts F E).
+  - intros args F t H. simpl in *. destruct (all_some (map (type_of cols []) args)) as [ts|] eqn:E; [|discriminate H].
+    now rewrite (all_some_weaken cols aggs args ts F E).
+  - intros f args F t H. simpl in *. destruct (all_some (map (type_of cols []) args)) as [ts|] eqn:E; [|discriminate H].
+    now rewrite (all_some_weaken cols aggs args ts F E).
+  - intros n e items IH t H. simpl in *. destruct (type_of cols [] e) as [a|]; [|discriminate H]. now rewrite (IH a eq_refl).
+Qed.
+
+(* the cells of one output row of an aggregate query: grouped targets evaluated on a row of the group,
+   the others on the context row with the finalised aggregates *)
+Fixpoint agg_cells (g : list nat) (ctx : row) (slots : list value) (r : row) (i : nat) (ts : list enode) : list value :=
+  match ts with
+  | [] => []
+  | e :: t => (if existsb (Nat.eqb i) g then eval r [] e else eval ctx slots e) :: agg_cells g ctx slots r (S i) t
+  end.
+
+Definition group_key_from (g : list nat) (r : row) (i : nat) (ts : list enode) : list value :=
+  flat_map (fun ie : nat * enode => if existsb (Nat.eqb (fst ie)) g then [eval r [] (snd ie)] else [])
+           (combine (seq i (length ts)) ts).
+
+Lemma group_key_is_from q g r : group_key q g r = group_key_from g r 0 (q_targets q).
+Proof.
+  unfold group_key, group_key_from. apply flat_map_ext. now intros [i e].
+Qed.
+
+(* the key is consumed exactly: the VErr 99 branch of out_values is never taken *)
+Lemma out_values_cells g ctx slots r : forall ts i,
+  out_values g ctx slots i ts (group_key_from g r i ts) = agg_cells g ctx slots r i ts.
+Proof.
+  induction ts as [|e t IH]; intros i; [reflexivity|].
+  unfold group_key_from. cbn [length seq combine flat_map fst snd out_values agg_cells].
+  fold (group_key_from g r (S i) t).
+  destruct (existsb (Nat.eqb i) g); simpl; now rewrite IH.
+Qed.
+
+Lemma agg_cells_length g ctx slots r : forall ts i, length (agg_cells g ctx slots r i ts) = length ts.
+Proof. induction ts as [|e t IH]; intros i; simpl; [reflexivity|now rewrite IH]. Qed.
+
+Lemma existsb_eqb_in i g : existsb (Nat.eqb i) g = true -> In i g.
+Proof. intros H. apply existsb_exists in H. destruct H as [x [Hx E]]. apply Nat.eqb_eq in E. now subst. Qed.
+
+Lemma agg_cells_sound cols aggs g ctx slots r :
+  conforms cols ctx -> conforms aggs slots -> conforms cols r ->
+  forall (ts : list enode) (names : list (option (list Z))) i d,
+  length names = length ts ->
+  (forall j e, nth_error ts j = Some e -> In (i + j)%nat g -> exists t, type_of cols [] e = Some t) ->
+  description cols aggs (combine ts names) = Some d ->
+  Forall2 (fun v nt => has_type v (snd nt) = true /\ forall k, v <> VErr k)
+          (visible (combine ts names) (agg_cells g ctx slots r i ts)) d.
+Proof.
+  intros Hc Hs Hr. induction ts as [|e ts IH]; intros names i d L G H.
+  - destruct names; [|discriminate L]. simpl in H. injection H as <-. constructor.
+  - destruct names as [|n names]; [discriminate L|]. injection L as L. simpl in H.
+    destruct (type_of cols aggs e) as [t|] eqn:E; [|discriminate H].
+    destruct (description cols aggs (combine ts names)) as [d'|] eqn:D; [|discriminate H]. injection H as <-.
+    assert (IH' : Forall2 (fun v nt => has_type v (snd nt) = true /\ forall k, v <> VErr k)
+                          (visible (combine ts names) (agg_cells g ctx slots r (S i) ts)) d').
+    { apply IH; [exact L| |exact D]. intros j e' Hj Hin. apply (G (S j) e'); [exact Hj|].
+      now rewrite Nat.add_succ_r. }
+    cbn [agg_cells combine visible]. destruct n as [n|]; [|exact IH'].
+    constructor; [|exact IH']. cbn [snd].
+    destruct (existsb (Nat.eqb i) g) eqn:Eg.
+    + apply existsb_eqb_in in Eg. destruct (G 0%nat e eq_refl) as [t0 Ht0]; [now rewrite Nat.add_0_r|].
+      pose proof (type_of_weaken cols aggs e t0 Ht0) as W. rewrite E in W. injection W as <-.
+      apply (eval_sound cols [] r [] Hr (conforms_nil []) e t Ht0).
+    + apply (eval_sound cols aggs ctx slots Hc Hs e t E).
+Qed.
+
+Lemma conforms_slots cols (aggl : list agg) (aggs : list ty) rows :
+  Forall2 (fun a t => agg_type cols a = Some t) aggl aggs -> Forall (conforms cols) rows ->
+  conforms aggs (map (fun a => fold_agg a rows) aggl).
+Proof.
+  intros F2 F. induction F2 as [|a t l l' Ha F2 IH]; intros i t' H; [destruct i; discriminate H|].
+  destruct i as [|i]; simpl in *.
+  - injection H as <-. now apply (agg_sound cols a t rows Ha F).
+  - now apply IH.
+Qed.
+
+Lemma conforms_last cols table : Forall (conforms cols) table -> conforms cols (last table []).
+Proof.
+  intros F. destruct table as [|r t]; [intros i ty _; destruct i; destruct ty; reflexivity|].
+  rewrite Forall_forall in F. apply F. destruct (@exists_last _ (r :: t)) as [l' [a E]]; [discriminate|].
+  rewrite E, last_last. apply in_or_app. right. now left.
+Qed.
+
+Theorem exec_agg_sound cols aggs (q : query) (g : list nat) (names : list (option (list Z))) d table :
+  q_group q = Some g ->
+  length names = length (q_targets q) ->
+  q_vis q = vis_from 0 (combine (q_targets q) names) ->
+  description cols aggs (combine (q_targets q) names) = Some d ->
+  Forall2 (fun a t => agg_type cols a = Some t) (q_aggs q) aggs ->
+  (forall j e, nth_error (q_targets q) j = Some e -> In j g -> exists t, type_of cols [] e = Some t) ->
+  Forall (conforms cols) table ->
+  Forall (fun out => Forall2 (fun v nt => has_type v (snd nt) = true /\ forall k, v <> VErr k) out d)
+         (exec q table).
+Proof.
+  intros G L V H A Hg F. apply Forall_forall. intros out Hin. unfold exec in Hin.
+  apply post_in in Hin. destruct Hin as [row [Hrow ->]].
+  rewrite (exec_rows_agg q g table G) in Hrow. cbv zeta in Hrow.
+  apply in_map_iff in Hrow. destruct Hrow as [k [<- Hk]]. apply filter_In in Hk. destruct Hk as [Hk _].
+  set (sel := filter (passes q) table) in *.
+  assert (Fsel : Forall (conforms cols) sel).
+  { apply Forall_forall. intros x Hx. apply filter_In in Hx. rewrite Forall_forall in F. now apply F. }
+  unfold group_keys in Hk. apply (uniquify_acc_in [] _ _) in Hk. apply in_map_iff in Hk. destruct Hk as [r [<- Hr]].
+  assert (Hrc : conforms cols r) by (rewrite Forall_forall in Fsel; now apply Fsel).
+  set (k := group_key q g r). set (slots := slots_of q g sel k).
+  assert (Hslots : conforms aggs slots).
+  { apply conforms_slots with (cols := cols); [exact A|]. apply Forall_forall. intros x Hx.
+    unfold members in Hx. apply filter_In in Hx. rewrite Forall_forall in Fsel. now apply Fsel. }
+  match goal with |- context [out_values g ?c ?s 0%nat ?ts k] => change (out_values g c s 0%nat ts k) with (out_values g c s 0%nat ts (group_key q g r)) end.
+  rewrite group_key_is_from, out_values_cells.
+  rewrite V. rewrite project_vis0.
+  - apply (agg_cells_sound cols aggs g _ _ r (conforms_last cols table F) Hslots Hrc (q_targets q) names 0%nat d L);
+      [|exact H]. intros j e Hj Hin. now apply (Hg j e).
+  - rewrite agg_cells_length. unfold target. rewrite combine_length, L. lia.
+Qed.
+
+(* ================= the implicit cast of _binaryop ================= *)
+Lemma cast_out_object tg a' : cast_out tg TObject = Some a' -> a' = tg.
+Proof. intros H. destruct tg; vm_compute in H; try discriminate H; now injection H as <-. Qed.
+
+Lemma binop_c_sound castf op a b ca cb t x y :
+  cast_contract castf -> binop_c op a b = Some (ca, cb, t) ->
+  has_type x a = true -> has_type y b = true -> has_type (bin_c castf op ca cb x y) t = true.
+Proof.
+  intros CC H Hx Hy. unfold binop_c in H. destruct (binop_out op a b) as [t0|] eqn:E.
+  - injection H as <- <- <-. unfold bin_c, apply_cast.
+    destruct (is_null x) eqn:Nx; [apply has_type_null|]. destruct (is_null y) eqn:Ny; [apply has_type_null|].
+    eapply binop_sound; eauto.
+  - destruct (is_obj a && negb (is_obj b)) eqn:C1.
+    + apply andb_true_iff in C1. destruct C1 as [Ca _]. apply ty_eqb_eq in Ca. subst a.
+      destruct (cast_out (cast_target b) TObject) as [a'|] eqn:Ec; [|discriminate H].
+      apply cast_out_object in Ec. subst a'.
+      destruct (binop_out op (cast_target b) b) as [t1|] eqn:E2; [|discriminate H]. injection H as <- <- <-.
+      unfold bin_c, apply_cast. destruct (is_null x) eqn:Nx; [apply has_type_null|].
+      assert (Hc : has_type (castf (cast_target b) x) (cast_target b) = true)
+        by (apply CC; eapply has_type_not_err; eauto).
+      destruct (is_null (castf (cast_target b) x)) eqn:Nc; [apply has_type_null|].
+      destruct (is_null y) eqn:Ny; [apply has_type_null|]. eapply binop_sound; eauto.
+    + destruct (is_obj b && negb (is_obj a)) eqn:C2; [|discriminate H].
+      apply andb_true_iff in C2. destruct C2 as [Cb _]. apply ty_eqb_eq in Cb. subst b.
+      destruct (cast_out (cast_target a) TObject) as [b'|] eqn:Ec; [|discriminate H].
+      apply cast_out_object in Ec. subst b'.
+      destruct (binop_out op a (cast_target a)) as [t1|] eqn:E2; [|discriminate H]. injection H as <- <- <-.
+      unfold bin_c, apply_cast. destruct (is_null x) eqn:Nx; [apply has_type_null|].
+      destruct (is_null y) eqn:Ny; [apply has_type_null|].
+      assert (Hc : has_type (castf (cast_target a) y) (cast_target a) = true)
+        by (apply CC; eapply has_type_not_err; eauto).
+      destruct (is_null (castf (cast_target a) y)) eqn:Nc; [apply has_type_null|]. eapply binop_sound; eauto.
+Qed.
+
+(* which combinations the cast makes typable: object against int/Decimal (cast to Decimal), date, str *)
+Definition cast_table : list (binop * ty * ty * (option ty * option ty * ty)) :=
+  flat_map (fun op => flat_map (fun a => flat_map (fun b =>
+    if is_obj a || is_obj b then match binop_c op a b with Some r => [(op, a, b, r)] | None => [] end else [])
+    all_ty) all_ty) all_binop.
+
+Section SoundC.
+Variable cols aggs : list ty.
+Variable castf : ty -> value -> value.
+Variable r : row.
+Variable st : list value.
+Hypothesis CC : cast_contract castf.
+Hypothesis Hr : conforms cols r.
+Hypothesis Hst : conforms aggs st.
+
+Notation tyc := (type_of_c cols aggs).
+Notation evc := (eval_c cols aggs castf r st).
+
+Definition sound_c_at (e : enode) : Prop := forall t, tyc e = Some t -> has_type (evc e) t = true.
+
+Lemma args_typed_c args ts :
+  Forall sound_c_at args -> all_some (map tyc args) = Some ts ->
+  Forall2 (fun v a => has_type v a = true) (map evc args) ts.
+Proof.
+  intros F H. apply all_some_forall2 in H. revert ts H.
+  induction F as [|a l Ha F IH]; intros ts H; simpl in *; inversion H; subst; constructor.
+  - now apply Ha.
+  - now apply IH.
+Qed.
+
+Lemma and_go_bool_c : forall l,
+  has_type ((fix go (l : list enode) : value :=
+               match l with
+               | [] => VBool true
+               | a :: t => let v := evc a in
+                           if is_null v then VNull else if truthy v then go t else VBool false
+               end) l) TBool = true.
+Proof.
+  induction l as [|a l IH]; [reflexivity|]. cbv zeta.
+  destruct (is_null (evc a)); [reflexivity|]. destruct (truthy (evc a)); [exact IH|reflexivity].
+Qed.
+
+Lemma or_go_bool_c : forall l acc, has_type acc TBool = true ->
+  has_type ((fix go (acc : value) (l : list enode) : value :=
+               match l with
+               | [] => acc
+               | a :: t => let v := evc a in
+                           if truthy v then VBool true else go (if is_null v then VNull else acc) t
+               end) acc l) TBool = true.
+Proof.
+  induction l as [|a l IH]; intros acc Hacc; [exact Hacc|]. cbv zeta.
+  destruct (truthy (evc a)); [reflexivity|]. apply IH. destruct (is_null (evc a)); [reflexivity|exact Hacc].
+Qed.
+
+Lemma coalesce_go_typed_c t : forall l, Forall (fun a => has_type (evc a) t = true) l ->
+  has_type ((fix go (l : list enode) : value :=
+               match l with
+               | [] => VNull
+               | a :: t => let v := evc a in if is_null v then go t else v
+               end) l) t = true.
+Proof.
+  induction l as [|a l IH]; intros F; [apply has_type_null|]. cbv zeta. inversion F; subst.
+  destruct (is_null (evc a)); [now apply IH|assumption].
+Qed.
+
+Theorem eval_c_sound_type : forall e, sound_c_at e.
+Proof.
+  apply enode_ind'; unfold sound_c_at.
+  - intros v t H. now apply type_of_value_sound.
+  - intros i t H. now apply Hr.
+  - intros h t H. now apply Hst.
+  - intros op e IHe t H. simpl in H. destruct (tyc e) as [a|] eqn:E; [|discriminate H].
+    simpl. eapply unop_sound; [exact H|now apply IHe].
+  - intros op e1 e2 IH1 IH2 t H. simpl in H. simpl.
+    destruct (tyc e1) as [a|] eqn:E1; [|discriminate H].
+    destruct (tyc e2) as [b|] eqn:E2; [|discriminate H].
+    unfold binop_casts. destruct (binop_c op a b) as [[[ca cb] t0]|] eqn:Eb; [|discriminate H]. injection H as <-.
+    eapply binop_c_sound; eauto.
+  - intros e1 e2 e3 _ _ _ t H. simpl in H.
+    destruct (tyc e1); [|discriminate H]. destruct (tyc e2); [|discriminate H]. destruct (tyc e3); [|discriminate H].
+    apply between_out_bool in H. subst t. simpl.
+    destruct (is_null (evc e1)); [reflexivity|]. destruct (is_null (evc e2)); [reflexivity|].
+    destruct (is_null (evc e3)); reflexivity.
+  - intros args _ t H. simpl in H. destruct (all_some (map tyc args)); [|discriminate H].
+    injection H as <-. apply and_go_bool_c.
+  - intros args _ t H. simpl in H. destruct (all_some (map tyc args)); [|discriminate H].
+    injection H as <-. simpl. now apply or_go_bool_c.
+  - intros args F t H. simpl in H.
+    destruct (all_some (map tyc args)) as [[|t0 ts]|] eqn:E; try discriminate H.
+    destruct (forallb (ty_eqb t0) ts) eqn:Eq; [|discriminate H]. injection H as <-.
+    apply coalesce_go_typed_c.
+    pose proof (args_typed_c _ _ F E) as F2.
+    assert (Hall : Forall (fun a => a = t0) (t0 :: ts)).
+    { constructor; [reflexivity|]. rewrite forallb_forall in Eq. apply Forall_forall. intros x Hx.
+      symmetry. apply ty_eqb_eq. now apply Eq. }
+    clear E Eq F. revert F2 Hall. generalize (t0 :: ts) as tl. clear ts.
+    induction args as [|a l IH]; intros tl F2 Hall; [constructor|].
+    simpl in F2. inversion F2; subst. inversion Hall; subst. constructor; [assumption|]. eapply IH; eauto.
+  - intros f args F t H. simpl in H.
+    destruct (all_some (map tyc args)) as [ts|] eqn:E; [|discriminate H].
+    simpl. destruct (existsb is_null (map evc args)) eqn:N; [apply has_type_null|].
+    eapply func_sound; [exact H| |exact N]. now apply args_typed_c.
+  - intros n e items _ t H. simpl in H. destruct (tyc e); [|discriminate H].
+    apply in_out_bool in H. subst t. simpl.
+    destruct (is_null (evc e)); [reflexivity|]. destruct items; reflexivity.
+Qed.
+
+Theorem eval_c_sound e t :
+  tyc e = Some t -> has_type (evc e) t = true /\ (forall k, evc e <> VErr k).
+Proof.
+  intros H. pose proof (eval_c_sound_type e t H) as Ht. split; [exact Ht|]. eapply has_type_not_err; eauto.
+Qed.
+End SoundC.
